@@ -78,6 +78,8 @@ func init() {
 					src = newStrSource()
 				},
 				Run: func(c *harness.Ctx, k int) {
+					hooksAlternate(k) // key / container poison also hides a library that wrongly re-uses a recycled buffer's content: every second case runs without
+
 					var p *spec.Path
 					var doc string
 					if k < nSys {
